@@ -493,8 +493,8 @@ def recasts(a, allow=('int', 'real', 'single')):
             if m < 2 ** 31:
                 out.append(('int32', re.astype(np.int32)))
                 out.append(('int64', re.astype(np.int64)))
-            if m < 2 ** 7:
-                out.append(('int8', re.astype(np.int8)))
+            # no int8 / int16 here: NumPy evaluates log / sqrt / divide of such arrays in half / single precision, which
+            # is a loss of accuracy chosen by the caller's dtype, not a property of the library
     return out
 
 
